@@ -8,6 +8,7 @@ import CqlVerif.Lemmas.GrammarBatch
 import CqlVerif.Lemmas.GrammarPlain
 import CqlVerif.Lemmas.GrammarPlainStmt
 import CqlVerif.Lemmas.GrammarWhere
+import CqlVerif.Lemmas.GrammarPlainUpdate
 /-!
 # C06 — The idempotency classifier is sound, case/whitespace-stable and total
 
@@ -312,6 +313,26 @@ example :
     (classify (lexOf (del .bindQ).render) 60).idem = true ∧
     relsNonIdem (del (.call none { text := [117, 117, 105, 100] } .nil)).rels = true ∧
     (classify (lexOf (del (.call none { text := [117, 117, 105, 100] } .nil)).render) 60).idem = false := by
+  decide +kernel
+
+open CqlVerif.Ast in
+/-- **plain_update_accepted** — every `UPDATE [ks.]table SET c = plain term, … [;]` (at least one assignment, any names,
+SET in any letter case), scanned from the start of the input up to its end, is classified "idempotent" with no
+error, as soon as the fuel covers its size. -/
+theorem plain_update_accepted (u : Update) (c : Ident) (t : Term) (as : Assigns) (semi : Bool) (hops : u.ops = .cons c t as)
+    (hkw : u.setKw.equal "set" = true) (hpl : u.ops.plain = true) (htail : u.tail = endToks semi)
+    (L : Lexer) (fuel : Nat) (hf : 1 + u.ops.size ≤ fuel) (hA : At L 0 u.render) : classify L fuel = { idem := true } :=
+  plain_update u c t as semi hops hkw hpl htail L fuel hf hA
+
+open CqlVerif.Ast in
+/-- non-vacuity: `UPDATE t SET a = [1, ?], b = {'x': :v}` meets the hypotheses with fuel 17 -/
+example :
+    let u : Update :=
+      { ks := none, table := { text := [116] }, setKw := { text := [83, 69, 84] },
+        ops := .cons { text := [97] } (.list (.cons .int (.cons .bindQ .nil)))
+                 (.cons { text := [98] } (.map (.cons (.prim .str) (.bindNamed { text := [118] }) .nil)) .nil),
+        tail := endToks false }
+    u.setKw.equal "set" = true ∧ u.ops.plain = true ∧ 1 + u.ops.size ≤ 17 ∧ classify (lexOf u.render) 17 = { idem := true } := by
   decide +kernel
 
 end CqlVerif.C06
